@@ -9,6 +9,10 @@ for _f in sorted(_glob.glob(_os.path.join(_os.path.dirname(_os.path.abspath(__fi
     exec(compile(open(_f).read(), _f, "exec"), _ns)
     CHECKS[_os.path.basename(_f)[:-3]] = _ns["CHECK"]
 
+# Properties whose check is finished (green on the unchanged tree over several seeds, sensitivity
+# tested). Only these are claimed in MANIFEST.json; everything else is listed as not claimed.
+READY = """C05 C06 C07 C08 C09 C11 C14 C23 C24 C25 C26 C27 C33 C40 C45 C47 C48""".split()
+
 HOOK_COMMITS = []
 NOT_CLAIMED = {}
 NOTES = ("All checks are property-based tests / fuzz targets driven by ./check; see DESIGN.md. "
